@@ -247,14 +247,24 @@ class Profiles:
         **very** slow instead.
         """
         # add macros
+        reset = False
         for profile, properties, macros in profiles:
             if macros:
+                if self._profileNames and set(macros.keys()).intersection(
+                    list(self._usedMacros.keys())
+                ):
+                    # a known macro changes: the profiles registered so far
+                    # must be expanded again (as addProfile does)
+                    reset = True
                 self._usedMacros.update(macros)
                 self._rawProfiles[profile] = {'macros': macros.copy()}
 
         # only add new properties
         for profile, properties, macros in profiles:
             self.addProfile(profile, properties.copy(), None)
+
+        if reset:
+            self._resetProperties()
 
     def addProfile(self, profile, properties, macros=None):
         """Add a new profile with name `profile` (e.g. 'CSS level 2')
